@@ -7,6 +7,7 @@ import Atomman.C05
 import Mathlib.Tactic.Ring
 import Mathlib.Tactic.FieldSimp
 import Mathlib.Tactic.Linarith
+import Mathlib.Tactic.LinearCombination
 import Mathlib.Tactic.Positivity
 import Mathlib.Algebra.Order.Field.Basic
 import Mathlib.Algebra.Order.Ring.Cast
@@ -360,6 +361,336 @@ theorem flagOf_unit (fl : K → Int) (hfl : IsFloor fl) (p : Bool) (t : K) (h0 :
   | true => simp only [flagOf, if_true]; exact hfl.eq_zero h0 h1
   | false => simp [flagOf]
 
+/-- a fully periodic box is returned unchanged. -/
+theorem wrap_box_full (fl : K → Int) (pad : K) (b : Box K) (pos : List (V3 K)) :
+    (wrap fl pad b ⟨true, true, true⟩ pos).box = b := by
+  simp only [wrap, bounds, axisBounds_periodic, paddedBox_unit]
+
 end atom
+
+/-! ### 3x3 matrix algebra -/
+section m3
+variable {K : Type} [Field K]
+
+theorem M3.mul_assoc' (A B C : M3 K) : M3.mul (M3.mul A B) C = M3.mul A (M3.mul B C) := by
+  obtain ⟨⟨a0, a1, a2⟩, ⟨a3, a4, a5⟩, ⟨a6, a7, a8⟩⟩ := A
+  obtain ⟨⟨b0, b1, b2⟩, ⟨b3, b4, b5⟩, ⟨b6, b7, b8⟩⟩ := B
+  obtain ⟨⟨c0, c1, c2⟩, ⟨c3, c4, c5⟩, ⟨c6, c7, c8⟩⟩ := C
+  simp only [M3.mul, M3.vecMul, M3.mk.injEq, V3.mk.injEq]
+  refine ⟨⟨?_, ?_, ?_⟩, ⟨?_, ?_, ?_⟩, ⟨?_, ?_, ?_⟩⟩ <;> ring
+
+theorem M3.transpose_mul (A B : M3 K) : (M3.mul A B).transpose = M3.mul B.transpose A.transpose := by
+  obtain ⟨⟨a0, a1, a2⟩, ⟨a3, a4, a5⟩, ⟨a6, a7, a8⟩⟩ := A
+  obtain ⟨⟨b0, b1, b2⟩, ⟨b3, b4, b5⟩, ⟨b6, b7, b8⟩⟩ := B
+  simp only [M3.mul, M3.vecMul, M3.transpose, M3.mk.injEq, V3.mk.injEq]
+  refine ⟨⟨?_, ?_, ?_⟩, ⟨?_, ?_, ?_⟩, ⟨?_, ?_, ?_⟩⟩ <;> ring
+
+theorem M3.transpose_transpose (A : M3 K) : A.transpose.transpose = A := rfl
+
+theorem M3.mul_one' (A : M3 K) : M3.mul A M3.one = A := by
+  obtain ⟨⟨a0, a1, a2⟩, ⟨a3, a4, a5⟩, ⟨a6, a7, a8⟩⟩ := A
+  simp only [M3.mul, M3.vecMul, M3.one, M3.mk.injEq, V3.mk.injEq]
+  refine ⟨⟨?_, ?_, ?_⟩, ⟨?_, ?_, ?_⟩, ⟨?_, ?_, ?_⟩⟩ <;> ring
+
+theorem M3.one_mul' (A : M3 K) : M3.mul M3.one A = A := by
+  obtain ⟨⟨a0, a1, a2⟩, ⟨a3, a4, a5⟩, ⟨a6, a7, a8⟩⟩ := A
+  simp only [M3.mul, M3.vecMul, M3.one, M3.mk.injEq, V3.mk.injEq]
+  refine ⟨⟨?_, ?_, ?_⟩, ⟨?_, ?_, ?_⟩, ⟨?_, ?_, ?_⟩⟩ <;> ring
+
+theorem M3.transpose_one : (M3.one : M3 K).transpose = M3.one := rfl
+
+theorem M3.det_mul (A B : M3 K) : M3.det (M3.mul A B) = M3.det A * M3.det B := by
+  obtain ⟨⟨a0, a1, a2⟩, ⟨a3, a4, a5⟩, ⟨a6, a7, a8⟩⟩ := A
+  obtain ⟨⟨b0, b1, b2⟩, ⟨b3, b4, b5⟩, ⟨b6, b7, b8⟩⟩ := B
+  simp only [M3.mul, M3.vecMul, M3.det, V3.dot, V3.cross]
+  ring
+
+theorem M3.det_transpose (A : M3 K) : M3.det A.transpose = M3.det A := by
+  obtain ⟨⟨a0, a1, a2⟩, ⟨a3, a4, a5⟩, ⟨a6, a7, a8⟩⟩ := A
+  simp only [M3.transpose, M3.det, V3.dot, V3.cross]
+  ring
+
+theorem M3.det_one : M3.det (M3.one : M3 K) = 1 := by
+  simp only [M3.one, M3.det, V3.dot, V3.cross]; ring
+
+theorem M3.inv_mul_cancel (A : M3 K) (h : M3.det A ≠ 0) : M3.mul (M3.inv A) A = M3.one := by
+  obtain ⟨⟨a0, a1, a2⟩, ⟨a3, a4, a5⟩, ⟨a6, a7, a8⟩⟩ := A
+  simp only [M3.det, V3.dot, V3.cross] at h
+  simp only [M3.mul, M3.vecMul, M3.inv, M3.one, M3.det, V3.dot, V3.cross, M3.mk.injEq, V3.mk.injEq]
+  generalize hd : a0 * (a4 * a8 - a5 * a7) + a1 * (a5 * a6 - a3 * a8) + a2 * (a3 * a7 - a4 * a6) = d at h ⊢
+  refine ⟨⟨?_, ?_, ?_⟩, ⟨?_, ?_, ?_⟩, ⟨?_, ?_, ?_⟩⟩ <;> field_simp <;> rw [← hd] <;> ring
+
+theorem M3.mul_inv_cancel (A : M3 K) (h : M3.det A ≠ 0) : M3.mul A (M3.inv A) = M3.one := by
+  obtain ⟨⟨a0, a1, a2⟩, ⟨a3, a4, a5⟩, ⟨a6, a7, a8⟩⟩ := A
+  simp only [M3.det, V3.dot, V3.cross] at h
+  simp only [M3.mul, M3.vecMul, M3.inv, M3.one, M3.det, V3.dot, V3.cross, M3.mk.injEq, V3.mk.injEq]
+  generalize hd : a0 * (a4 * a8 - a5 * a7) + a1 * (a5 * a6 - a3 * a8) + a2 * (a3 * a7 - a4 * a6) = d at h ⊢
+  refine ⟨⟨?_, ?_, ?_⟩, ⟨?_, ?_, ?_⟩, ⟨?_, ?_, ?_⟩⟩ <;> field_simp <;> rw [← hd] <;> ring
+
+theorem M3.det_inv (A : M3 K) (h : M3.det A ≠ 0) : M3.det (M3.inv A) * M3.det A = 1 := by
+  rw [← M3.det_mul, M3.inv_mul_cancel A h, M3.det_one]
+
+theorem M3.transpose_inv (A : M3 K) : (M3.inv A).transpose = M3.inv A.transpose := by
+  obtain ⟨⟨a0, a1, a2⟩, ⟨a3, a4, a5⟩, ⟨a6, a7, a8⟩⟩ := A
+  simp only [M3.inv, M3.transpose, M3.det, V3.dot, V3.cross, M3.mk.injEq, V3.mk.injEq]
+  have e : a0 * (a4 * a8 - a7 * a5) + a3 * (a7 * a2 - a1 * a8) + a6 * (a1 * a5 - a4 * a2)
+      = a0 * (a4 * a8 - a5 * a7) + a1 * (a5 * a6 - a3 * a8) + a2 * (a3 * a7 - a4 * a6) := by ring
+  rw [e]
+  refine ⟨⟨?_, ?_, ?_⟩, ⟨?_, ?_, ?_⟩, ⟨?_, ?_, ?_⟩⟩ <;> ring
+
+/-- **gram_eq_rotation** (algebraic core of the rotation clause): two non-singular cells with the same
+    Gram matrix `V Vᵀ` are related by `R = M⁻¹ N` with `R Rᵀ = 1`, `Rᵀ R = 1` and `M R = N`. -/
+theorem gram_eq_rotation (M N : M3 K) (hM : M3.det M ≠ 0) (hg : gram N = gram M) :
+    let R := M3.mul (M3.inv M) N
+    M3.mul M R = N ∧ M3.mul R R.transpose = M3.one ∧ M3.mul R.transpose R = M3.one ∧
+    M3.det R * M3.det R = 1 := by
+  intro R
+  have hMT : M3.det M.transpose ≠ 0 := by rw [M3.det_transpose]; exact hM
+  have e1 : M3.mul M R = N := by
+    simp only [R]
+    rw [← M3.mul_assoc', M3.mul_inv_cancel M hM, M3.one_mul']
+  have e2 : M3.mul R R.transpose = M3.one := by
+    simp only [R]
+    rw [M3.transpose_mul, M3.mul_assoc', ← M3.mul_assoc' N, ]
+    have : M3.mul N N.transpose = M3.mul M M.transpose := hg
+    rw [this, M3.transpose_inv, M3.mul_assoc' M, M3.mul_inv_cancel _ hMT, M3.mul_one', M3.inv_mul_cancel M hM]
+  have e4 : M3.det R * M3.det R = 1 := by
+    have := congrArg M3.det e2
+    rwa [M3.det_mul, M3.det_transpose, M3.det_one] at this
+  have hR : M3.det R ≠ 0 := by
+    intro h; rw [h, zero_mul] at e4; exact zero_ne_one e4
+  refine ⟨e1, e2, ?_, e4⟩
+  -- left inverse from right inverse
+  calc M3.mul R.transpose R
+      = M3.mul (M3.mul (M3.inv R) R) (M3.mul R.transpose R) := by rw [M3.inv_mul_cancel R hR, M3.one_mul']
+    _ = M3.mul (M3.inv R) (M3.mul (M3.mul R R.transpose) R) := by simp only [M3.mul_assoc']
+    _ = M3.one := by rw [e2, M3.one_mul', M3.inv_mul_cancel R hR]
+
+end m3
+
+/-! ### the cell rebuilt from lengths and cosines -/
+section abc
+variable {K : Type} [Field K] [LinearOrder K] [IsStrictOrderedRing K]
+
+/-- what is assumed of `x**0.5` at one argument. -/
+def SqrtAt (sqrt : K → K) (x : K) : Prop := sqrt x * sqrt x = x ∧ 0 < sqrt x
+
+/-- the five square roots `set_abc`/`Box.a,b,c` take for the cell `v`. -/
+structure SqrtOK (sqrt : K → K) (v : M3 K) : Prop where
+  a : SqrtAt sqrt (V3.normSq v.r0)
+  b : SqrtAt sqrt (V3.normSq v.r1)
+  c : SqrtAt sqrt (V3.normSq v.r2)
+  ly : SqrtAt sqrt (lyArg sqrt v)
+  lz : SqrtAt sqrt (lzArg sqrt v)
+
+theorem triple_eq_det (v : M3 K) : triple v = M3.det v := by
+  obtain ⟨⟨a0, a1, a2⟩, ⟨a3, a4, a5⟩, ⟨a6, a7, a8⟩⟩ := v
+  simp only [triple, M3.det, V3.dot, V3.cross]; ring
+
+theorem gram_entries (v : M3 K) :
+    gram v = ⟨⟨V3.normSq v.r0, V3.dot v.r0 v.r1, V3.dot v.r0 v.r2⟩,
+              ⟨V3.dot v.r0 v.r1, V3.normSq v.r1, V3.dot v.r1 v.r2⟩,
+              ⟨V3.dot v.r0 v.r2, V3.dot v.r1 v.r2, V3.normSq v.r2⟩⟩ := by
+  obtain ⟨⟨a0, a1, a2⟩, ⟨a3, a4, a5⟩, ⟨a6, a7, a8⟩⟩ := v
+  apply M3.ext <;> apply V3.ext <;>
+    simp only [gram, M3.mul, M3.vecMul, M3.transpose, V3.normSq, V3.dot] <;> ring
+
+theorem det_gram (v : M3 K) : M3.det (gram v) = M3.det v * M3.det v := by
+  rw [gram, M3.det_mul, M3.det_transpose]
+
+/-- the cell rebuilt from lengths and cosines: defined, LAMMPS-normal, origin 0, same Gram matrix,
+    positive determinant. -/
+theorem abcBox_spec (sqrt : K → K) (v : M3 K) (hs : SqrtOK sqrt v) :
+    ∃ b2 : Box K, abcBox? sqrt v = some b2 ∧ b2.origin = ⟨0, 0, 0⟩ ∧ Box.isLammpsNorm b2 = true ∧
+      gram b2.vects = gram v ∧ 0 < M3.det b2.vects := by
+  obtain ⟨⟨hA2, hA⟩, ⟨hB2, hB⟩, ⟨hC2, hC⟩, ⟨hLY2, hLY⟩, ⟨hLZ2, hLZ⟩⟩ := hs
+  have hA' : 0 < lenA sqrt v := hA
+  have hB' : 0 < lenB sqrt v := hB
+  have hC' : 0 < lenC sqrt v := hC
+  have hLY' : 0 < lenLy sqrt v := hLY
+  have hLZ' : 0 < lenLz sqrt v := hLZ
+  have eA : lenA sqrt v * lenA sqrt v = V3.normSq v.r0 := hA2
+  have eB : lenB sqrt v * lenB sqrt v = V3.normSq v.r1 := hB2
+  have eC : lenC sqrt v * lenC sqrt v = V3.normSq v.r2 := hC2
+  have eLY : lenLy sqrt v * lenLy sqrt v = lenB sqrt v * lenB sqrt v - tiltXY sqrt v * tiltXY sqrt v := hLY2
+  have eLZ : lenLz sqrt v * lenLz sqrt v
+      = lenC sqrt v * lenC sqrt v - tiltXZ sqrt v * tiltXZ sqrt v - tiltYZ sqrt v * tiltYZ sqrt v := hLZ2
+  have exy : lenA sqrt v * tiltXY sqrt v = V3.dot v.r0 v.r1 := by
+    simp only [tiltXY, cosGamma]; field_simp
+  have exz : lenA sqrt v * tiltXZ sqrt v = V3.dot v.r0 v.r2 := by
+    simp only [tiltXZ, cosBeta]; field_simp
+  have eyz : lenLy sqrt v * tiltYZ sqrt v = V3.dot v.r1 v.r2 - tiltXY sqrt v * tiltXZ sqrt v := by
+    simp only [tiltYZ, cosAlpha]; field_simp
+  refine ⟨⟨⟨⟨lenA sqrt v, 0, 0⟩, ⟨tiltXY sqrt v, lenLy sqrt v, 0⟩, ⟨tiltXZ sqrt v, tiltYZ sqrt v, lenLz sqrt v⟩⟩,
+    ⟨0, 0, 0⟩⟩, ?_, rfl, ?_, ?_, ?_⟩
+  · simp only [abcBox?, Box.ofLengths?, hA', hLY', hLZ', and_self, if_true]
+  · simp only [Box.isLammpsNorm, hA', hLY', hLZ', decide_true, Bool.and_self]
+  · rw [gram_entries, gram_entries]
+    generalize lenA sqrt v = A at *
+    generalize lenB sqrt v = B at *
+    generalize lenC sqrt v = C at *
+    generalize lenLy sqrt v = LY at *
+    generalize lenLz sqrt v = LZ at *
+    generalize tiltXY sqrt v = XY at *
+    generalize tiltXZ sqrt v = XZ at *
+    generalize tiltYZ sqrt v = YZ at *
+    simp only [V3.normSq, V3.dot, M3.mk.injEq, V3.mk.injEq] at *
+    refine ⟨⟨?_, ?_, ?_⟩, ⟨?_, ?_, ?_⟩, ⟨?_, ?_, ?_⟩⟩
+    · linear_combination eA
+    · linear_combination exy
+    · linear_combination exz
+    · linear_combination exy
+    · linear_combination eLY + eB
+    · linear_combination eyz
+    · linear_combination exz
+    · linear_combination eyz
+    · linear_combination eLZ + eC
+  · simp only [M3.det, V3.dot, V3.cross]
+    have : 0 < lenA sqrt v * (lenLy sqrt v * lenLz sqrt v) := mul_pos hA' (mul_pos hLY' hLZ')
+    linarith
+
+end abc
+
+/-! ### flip and the shape of normalize -/
+section norm
+variable {K : Type} [Field K] [LinearOrder K] [IsStrictOrderedRing K]
+
+theorem det_flipC (b : Box K) : M3.det (flipC b).vects = - M3.det b.vects := by
+  obtain ⟨⟨⟨a0, a1, a2⟩, ⟨a3, a4, a5⟩, ⟨a6, a7, a8⟩⟩, o⟩ := b
+  simp only [flipC, M3.det, V3.dot, V3.cross, V3.neg_def]; ring
+
+theorem flip_det_pos (b : Box K) (hdet : M3.det b.vects ≠ 0) : 0 < M3.det (flip b).vects := by
+  simp only [flip]
+  split
+  · rename_i h; rw [triple_eq_det] at h; rw [det_flipC]; linarith
+  · rename_i h; rw [triple_eq_det] at h
+    exact lt_of_le_of_ne (not_lt.mp h) (Ne.symm hdet)
+
+theorem relToCart_flipC (b : Box K) (s : V3 K) : (flipC b).relToCart ⟨s.x, s.y, 1 - s.z⟩ = b.relToCart s := by
+  obtain ⟨⟨⟨a0, a1, a2⟩, ⟨a3, a4, a5⟩, ⟨a6, a7, a8⟩⟩, ⟨o0, o1, o2⟩⟩ := b
+  simp only [flipC, Box.relToCart, M3.vecMul, V3.add_def, V3.neg_def, V3.mk.injEq]
+  refine ⟨?_, ?_, ?_⟩ <;> ring
+
+theorem latticeVec_flipC (b : Box K) (f : V3 Int) :
+    latticeVec (flipC b).vects f = latticeVec b.vects ⟨f.x, f.y, -f.z⟩ := by
+  obtain ⟨⟨⟨a0, a1, a2⟩, ⟨a3, a4, a5⟩, ⟨a6, a7, a8⟩⟩, ⟨o0, o1, o2⟩⟩ := b
+  simp only [flipC, latticeVec, M3.vecMul, V3.neg_def, V3.mk.injEq, Int.cast_neg]
+  refine ⟨?_, ?_, ?_⟩ <;> ring
+
+theorem normalize_eq (fl : K → Int) (pad : K) (sqrt : K → K) (b : Box K) (pbc : V3 Bool) (pos : List (V3 K))
+    (b2 : Box K) (h2 : abcBox? sqrt (flip b).vects = some b2) :
+    normalize? fl pad sqrt b pbc pos =
+      some ⟨(wrap fl pad b2 pbc (pos.map (fun p => b2.relToCart ((flip b).cartToRel p)))).box,
+            (wrap fl pad b2 pbc (pos.map (fun p => b2.relToCart ((flip b).cartToRel p)))).pos,
+            (wrap fl pad b2 pbc (pos.map (fun p => b2.relToCart ((flip b).cartToRel p)))).flags,
+            (M3.mul (M3.inv (flip b).vects)
+              (wrap fl pad b2 pbc (pos.map (fun p => b2.relToCart ((flip b).cartToRel p)))).box.vects).transpose⟩ := by
+  simp only [normalize?, h2]
+
+/-- new position and image flags of one atom under `normalize` of a fully periodic system whose cell
+    is rebuilt as `b2`. -/
+def normPos (fl : K → Int) (b1 b2 : Box K) (p : V3 K) : V3 K :=
+  atomPos fl b2 ⟨true, true, true⟩ (b2.relToCart (b1.cartToRel p))
+def normFlags (fl : K → Int) (b1 b2 : Box K) (p : V3 K) : V3 Int :=
+  atomFlags fl b2 ⟨true, true, true⟩ (b2.relToCart (b1.cartToRel p))
+
+/-- shape of the result for a fully periodic system. -/
+theorem normalize_full_form (fl : K → Int) (pad : K) (sqrt : K → K) (b : Box K)
+    (hs : SqrtOK sqrt (flip b).vects) (pos : List (V3 K)) :
+    ∃ b2 : Box K, abcBox? sqrt (flip b).vects = some b2 ∧ b2.origin = ⟨0, 0, 0⟩ ∧ Box.isLammpsNorm b2 = true ∧
+      gram b2.vects = gram (flip b).vects ∧ 0 < M3.det b2.vects ∧
+      normalize? fl pad sqrt b ⟨true, true, true⟩ pos =
+        some ⟨b2, pos.map (normPos fl (flip b) b2), pos.map (normFlags fl (flip b) b2),
+              (M3.mul (M3.inv (flip b).vects) b2.vects).transpose⟩ := by
+  obtain ⟨b2, h2, ho, hn, hg, hd⟩ := abcBox_spec sqrt (flip b).vects hs
+  refine ⟨b2, h2, ho, hn, hg, hd, ?_⟩
+  rw [normalize_eq fl pad sqrt b _ pos b2 h2]
+  rw [wrap_box_full]
+  simp only [wrap, List.map_map, Function.comp_def]
+  rfl
+
+end norm
+
+/-! ### closed forms, separations -/
+section misc
+variable {K : Type} [Field K] [LinearOrder K] [IsStrictOrderedRing K]
+
+theorem ly_identity (a b : V3 K) (h : V3.normSq a ≠ 0) :
+    V3.normSq b - V3.dot a b * V3.dot a b / V3.normSq a = V3.normSq (V3.cross a b) / V3.normSq a := by
+  obtain ⟨n, hn⟩ : ∃ n, n = V3.normSq a := ⟨_, rfl⟩
+  rw [← hn] at h ⊢
+  field_simp
+  rw [hn]
+  obtain ⟨a0, a1, a2⟩ := a
+  obtain ⟨a3, a4, a5⟩ := b
+  simp only [V3.normSq, V3.dot, V3.cross]
+  ring
+
+theorem lz_identity (v : M3 K) (h : V3.normSq v.r0 ≠ 0) (hW : V3.normSq (V3.cross v.r0 v.r1) ≠ 0) :
+    V3.normSq v.r2 - V3.dot v.r0 v.r2 * V3.dot v.r0 v.r2 / V3.normSq v.r0
+      - (V3.dot v.r1 v.r2 - V3.dot v.r0 v.r1 * V3.dot v.r0 v.r2 / V3.normSq v.r0)
+        * (V3.dot v.r1 v.r2 - V3.dot v.r0 v.r1 * V3.dot v.r0 v.r2 / V3.normSq v.r0)
+        / (V3.normSq (V3.cross v.r0 v.r1) / V3.normSq v.r0)
+      = M3.det v * M3.det v / V3.normSq (V3.cross v.r0 v.r1) := by
+  obtain ⟨n, hn⟩ : ∃ n, n = V3.normSq v.r0 := ⟨_, rfl⟩
+  obtain ⟨w, hw⟩ : ∃ w, w = V3.normSq (V3.cross v.r0 v.r1) := ⟨_, rfl⟩
+  rw [← hn] at h ⊢
+  rw [← hw] at hW ⊢
+  field_simp
+  rw [hn, hw]
+  obtain ⟨⟨a0, a1, a2⟩, ⟨a3, a4, a5⟩, ⟨a6, a7, a8⟩⟩ := v
+  simp only [V3.normSq, V3.dot, V3.cross, M3.det]
+  ring
+
+theorem normSq_cross_pos (v : M3 K) (hdet : M3.det v ≠ 0) : 0 < V3.normSq (V3.cross v.r0 v.r1) := by
+  obtain ⟨⟨a0, a1, a2⟩, ⟨a3, a4, a5⟩, ⟨a6, a7, a8⟩⟩ := v
+  rw [← triple_eq_det] at hdet
+  simp only [triple, V3.normSq, V3.dot, V3.cross] at *
+  by_contra hcon
+  have h0 := not_lt.mp hcon
+  have s1 := mul_self_nonneg (a1 * a5 - a2 * a4)
+  have s2 := mul_self_nonneg (a2 * a3 - a0 * a5)
+  have s3 := mul_self_nonneg (a0 * a4 - a1 * a3)
+  have e1 : (a1 * a5 - a2 * a4) * (a1 * a5 - a2 * a4) = 0 := by linarith
+  have e2 : (a2 * a3 - a0 * a5) * (a2 * a3 - a0 * a5) = 0 := by linarith
+  have e3 : (a0 * a4 - a1 * a3) * (a0 * a4 - a1 * a3) = 0 := by linarith
+  have z1 := mul_self_eq_zero.mp e1
+  have z2 := mul_self_eq_zero.mp e2
+  have z3 := mul_self_eq_zero.mp e3
+  apply hdet
+  rw [z1, z2, z3]; ring
+
+/-- separation of two atoms plus a lattice vector, written in relative coordinates. -/
+theorem sep_rel (B : Box K) (s t : V3 K) (n : V3 Int) :
+    B.relToCart t - B.relToCart s + latticeVec B.vects n
+      = M3.vecMul ⟨t.x - s.x + (n.x : K), t.y - s.y + (n.y : K), t.z - s.z + (n.z : K)⟩ B.vects := by
+  obtain ⟨⟨⟨a0, a1, a2⟩, ⟨a3, a4, a5⟩, ⟨a6, a7, a8⟩⟩, ⟨o0, o1, o2⟩⟩ := B
+  simp only [Box.relToCart, latticeVec, M3.vecMul, V3.add_def, V3.sub_def, V3.mk.injEq]
+  refine ⟨?_, ?_, ?_⟩ <;> ring
+
+theorem normSq_pos_of_ne (a : V3 K)
+    (h : a ≠ ⟨0, 0, 0⟩) : 0 < V3.normSq a := by
+  obtain ⟨x, y, z⟩ := a
+  simp only [V3.normSq, V3.dot]
+  by_contra hcon
+  have h0 := not_lt.mp hcon
+  have s1 := mul_self_nonneg x
+  have s2 := mul_self_nonneg y
+  have s3 := mul_self_nonneg z
+  have z1 := mul_self_eq_zero.mp (show x * x = 0 by linarith)
+  have z2 := mul_self_eq_zero.mp (show y * y = 0 by linarith)
+  have z3 := mul_self_eq_zero.mp (show z * z = 0 by linarith)
+  exact h (by rw [z1, z2, z3])
+
+theorem rows_normSq_pos (v : M3 K)
+    (hdet : M3.det v ≠ 0) : 0 < V3.normSq v.r0 ∧ 0 < V3.normSq v.r1 ∧ 0 < V3.normSq v.r2 := by
+  obtain ⟨a, b, c⟩ := v
+  refine ⟨normSq_pos_of_ne a ?_, normSq_pos_of_ne b ?_, normSq_pos_of_ne c ?_⟩ <;>
+  · rintro rfl
+    apply hdet
+    simp only [M3.det, V3.dot, V3.cross]
+    ring
+
+end misc
 
 end Atomman.C05
